@@ -1,6 +1,7 @@
 import EpdVerif.Table
 import EpdVerif.Scenario
 import EpdVerif.Pure
+import EpdVerif.Oracle.Pure
 /-!
 # epdmodel — runs the Lean model on scenario lines and compares it with the harness trace
 
@@ -63,15 +64,49 @@ def compareOps : List OpTrace → List OpTrace → Nat → Option String
   | m :: _, [], k => some s!"op={k} missing in impl (model {m.res.toString})"
   | [], i :: _, k => some s!"op={k} missing in model (impl {i.res.toString})"
 
-partial def loop (hs ht : IO.FS.Handle) (f : Feat) (n drift : Nat) : IO (Nat × Nat) := do
+structure Cfg where
+  f : Feat := {}
+  props : List String := []
+  view : String := "raw"
+
+/-- oracle verdicts for a pure scenario, from the implementation's printed results -/
+def pureVerdicts (cfg : Cfg) (sc : Scenario) (xs : List String) : List String := Id.run do
+  let mut out : List String := []
+  for prop in cfg.props do
+    let mut n := 0
+    let mut bad : Option String := none
+    let mut k := 0
+    for op in sc.ops do
+      let got := ((xs.getD k "").splitOn " ").drop 2 |> " ".intercalate
+      let r : Option (Option String) :=
+        match prop, op with
+        | "C16", "rect" :: rest => (rest.mapM String.toNat?).map (fun v => Oracle.C16.check v got)
+        | _, _ => none
+      match r with
+      | some res =>
+        n := n + 1
+        if bad.isNone then
+          match res with
+          | some f => bad := some s!"{f} op={k}"
+          | none => pure ()
+      | none => pure ()
+      k := k + 1
+    if n > 0 then
+      out := out ++ [match bad with
+        | none => s!"V {sc.id} {prop} ok n={n}"
+        | some f => s!"V {sc.id} {prop} FAIL {f}"]
+  return out
+
+partial def loop (hs ht : IO.FS.Handle) (cfg : Cfg) (n drift : Nat) : IO (Nat × Nat) := do
+  let f := cfg.f
   let line ← hs.getLine
   if line.isEmpty then return (n, drift)
   let l := line.trimAscii.toString
-  if l.isEmpty || l.startsWith "#" then loop hs ht f n drift else
+  if l.isEmpty || l.startsWith "#" then loop hs ht cfg n drift else
   match parseScenario l with
   | .error e => do
     IO.println s!"X bad scenario: {e}: {l}"
-    loop hs ht f (n + 1) (drift + 1)
+    loop hs ht cfg (n + 1) (drift + 1)
   | .ok sc => do
     let block ← readBlock ht #[]
     if sc.panel == "pure" then
@@ -84,33 +119,34 @@ partial def loop (hs ht : IO.FS.Handle) (f : Feat) (n drift : Nat) : IO (Nat × 
         if bad.isNone && want ≠ got then
           bad := some s!"op={k} ({op.head!}) model=[{(want.take 300).toString}] impl=[{(got.take 300).toString}]"
         k := k + 1
+      for v in pureVerdicts cfg sc xs do IO.println v
       match bad with
       | none =>
         IO.println s!"C {sc.id} same"
-        loop hs ht f (n + 1) drift
+        loop hs ht cfg (n + 1) drift
       | some d =>
         IO.println s!"C {sc.id} drift {d}"
-        loop hs ht f (n + 1) (drift + 1)
+        loop hs ht cfg (n + 1) (drift + 1)
     else
     match findPanel f sc.panel, sc.ops.mapM parseOp, parseBlock block with
     | none, _, _ => do
       IO.println s!"X {sc.id} unknown panel {sc.panel}"
-      loop hs ht f (n + 1) (drift + 1)
+      loop hs ht cfg (n + 1) (drift + 1)
     | _, none, _ => do
       IO.println s!"X {sc.id} bad ops"
-      loop hs ht f (n + 1) (drift + 1)
+      loop hs ht cfg (n + 1) (drift + 1)
     | _, _, .error e => do
       IO.println s!"X {sc.id} bad trace: {e}"
-      loop hs ht f (n + 1) (drift + 1)
+      loop hs ht cfg (n + 1) (drift + 1)
     | some p, some ops, .ok impl => do
       let model := runOps p ops (mkEnv p sc) none
       match compareOps model impl 0 with
       | none => do
         IO.println s!"C {sc.id} same"
-        loop hs ht f (n + 1) drift
+        loop hs ht cfg (n + 1) drift
       | some d => do
         IO.println s!"C {sc.id} drift {d}"
-        loop hs ht f (n + 1) (drift + 1)
+        loop hs ht cfg (n + 1) (drift + 1)
 
 def main (args : List String) : IO UInt32 := do
   match args with
@@ -120,10 +156,16 @@ def main (args : List String) : IO UInt32 := do
     IO.println s!"pos {hexOf ((List.range 8).map fun i => posByte (i * 100))}"
     return 0
   | "check" :: sf :: tf :: rest => do
-    let f : Feat := { v2 := rest.contains "v2", alt := rest.contains "alt" }
+    let rec opt (k : String) : List String → Option String
+      | a :: b :: r => if a == k then some b else opt k (b :: r)
+      | _ => none
+    let cfg : Cfg := {
+      f := { v2 := rest.contains "v2", alt := rest.contains "alt" },
+      props := ((opt "--props" rest).getD "").splitOn "," |>.filter (· ≠ ""),
+      view := (opt "--view" rest).getD "raw" }
     let hs ← IO.FS.Handle.mk sf .read
     let ht ← IO.FS.Handle.mk tf .read
-    let (n, d) ← loop hs ht f 0 0
+    let (n, d) ← loop hs ht cfg 0 0
     IO.println s!"SUMMARY scenarios={n} drift={d}"
     return 0
   | _ => do
